@@ -505,6 +505,17 @@ func runCheck(id, tier string, o RunOpts) int {
 	if nerr != nil {
 		problems = append(problems, "native replay run failed: "+nerr.Error())
 	}
+	labelsWithFindings := map[string]map[string]bool{}
+	for _, r := range results {
+		for l, n := range r.FindingCnt {
+			if n > 0 {
+				if labelsWithFindings[r.Name] == nil {
+					labelsWithFindings[r.Name] = map[string]bool{}
+				}
+				labelsWithFindings[r.Name][l] = true
+			}
+		}
+	}
 	for _, wf := range witnessFiles {
 		w := witnessOf[wf]
 		nr1 := nres[wf]
@@ -521,7 +532,18 @@ func runCheck(id, tier string, o RunOpts) int {
 		case len(nr1.AssumeFails) > 0:
 			bad = "native run violates an assumption the model satisfies: " + strings.Join(nr1.AssumeFails, "; ")
 		case len(nr1.Failures) > 0:
-			bad = "native run fails assertions gse discharged: " + strings.Join(nr1.Failures, ", ")
+			// a label that already produced a counterexample in this harness is not re-examined on
+			// later paths (one model per label is reported): a witness path may therefore fail it
+			// natively without any disagreement between the executor and the real build
+			var unexpected []string
+			for _, l := range nr1.Failures {
+				if !labelsWithFindings[w.Harness][l] {
+					unexpected = append(unexpected, l)
+				}
+			}
+			if len(unexpected) > 0 {
+				bad = "native run fails assertions gse discharged: " + strings.Join(unexpected, ", ")
+			}
 		}
 		if bad == "" {
 			rs := map[string]bool{}
@@ -540,6 +562,10 @@ func runCheck(id, tier string, o RunOpts) int {
 			}
 		}
 		if bad != "" {
+			// keep the diverging witness for inspection
+			if b, err := os.ReadFile(wf); err == nil {
+				os.WriteFile(filepath.Join(vd, "evidence", "replay", "diverging-witness-"+w.Harness+".json"), b, 0o644)
+			}
 			problems = append(problems, fmt.Sprintf("translator validation failed for %s: %s", w.Harness, bad))
 		} else {
 			tracesValidated++
@@ -784,4 +810,44 @@ func boundsText(spec *checkSpec, tier string, deepBudget int) string {
 		t = spec.bounds["quick"] + " — thorough: " + t
 	}
 	return fmt.Sprintf("pass 1 (complete, conclusive): the quick bounds — %s || pass 2 (larger family, at most %d s of wall clock per harness): %s. Pass 2 is reported per harness under deep_exploration: 'complete' means the thorough bounds hold, 'incomplete' (budget hit or a solver query timed out) means the claim for that harness is the quick bound plus bug hunting beyond it; an incomplete pass 2 is never counted as a pass of the larger bounds.", spec.bounds["quick"], deepBudget, t)
+}
+
+// replayMany (development aid): native replay of every model file listed in listPath, one process.
+func replayMany(listPath string) int {
+	p, err := loadProgram()
+	if err != nil {
+		fmt.Println(err)
+		return 2
+	}
+	b, err := os.ReadFile(listPath)
+	if err != nil {
+		fmt.Println(err)
+		return 2
+	}
+	var files, all []string
+	for _, l := range strings.Split(string(b), "\n") {
+		if l = strings.TrimSpace(l); l != "" {
+			files = append(files, l)
+		}
+	}
+	for n, m := range p.pkg.Members {
+		if _, ok := m.(*ssa.Function); ok && strings.HasPrefix(n, "vfH_") {
+			all = append(all, n)
+		}
+	}
+	sort.Strings(all)
+	nr := buildNative(p, all)
+	defer nr.close()
+	res, err := nr.run(files)
+	if err != nil {
+		fmt.Println(err)
+	}
+	for _, f := range files {
+		if r := res[f]; r != nil {
+			fmt.Printf("%s failures=%v panic=%q assume_fails=%v\n", f, r.Failures, r.Panic, r.AssumeFails)
+		} else {
+			fmt.Printf("%s no-result\n", f)
+		}
+	}
+	return 0
 }
